@@ -116,7 +116,19 @@ let rec gx (x : sx) : g =
   | L [A "ThenWithCtx"; a; b] -> ThenWithCtx (gx a, gx b)
   | L [A "MapCtx"; f; a] -> MapCtx (fn1x f, gx a)
   | L [A "JustCfg"; t] -> JustCfg (toks t)
+  | L [A "Memo"; id; a] -> Memo (natx id, gx a)
+  | L [A "Rec"; a] -> Rec (gx a)
+  | L [A "RecDecl"; a] -> Rec (gx a)
+  | L [A "Var"; k] -> Var (natx k)
+  | L [A "Boxed"; a] -> gx a
+  | L [A "Pratt"; _; a; L ops] -> Pratt (gx a, List.map opx ops)
   | _ -> failwith "grammar"
+and opx (x : sx) : pop =
+  match x with
+  | L [A "PInfix"; r; bp; g; k] -> PInfix (boolx r, natx bp, gx g, natx k)
+  | L [A "PPrefix"; bp; g; k] -> PPrefix (natx bp, gx g, natx k)
+  | L [A "PPostfix"; bp; g; k] -> PPostfix (natx bp, gx g, natx k)
+  | _ -> failwith "op"
 and itx (x : sx) : iT =
   match x with
   | L [A "IRep"; a; lo; hi] -> IRep (gx a, natx lo, optnat hi)
@@ -176,10 +188,10 @@ let spn_plain (p1 : nat) (p2 : nat) : nat * nat = (p1, p2)
 let getenv_default k d = try Sys.getenv k with Not_found -> d
 let which = getenv_default "CHUM_WHICH" "go"
 let quirks =
-  let q = getenv_default "CHUM_QUIRKS" "1111111" in
+  let q = getenv_default "CHUM_QUIRKS" "000000011" in
   let b i = String.length q > i && q.[i] = '1' in
   { q_zst_noop = b 0; q_look_trunc = b 1; q_trymap_drop = b 2; q_trymap_pos = b 3; q_maperr_drop = b 4;
-    q_exact_noalt = b 5; q_emptychoice_none = b 6 }
+    q_exact_noalt = b 5; q_emptychoice_none = b 6; q_memo_take = b 7; memo_on = b 8 }
 
 let run_line (line : string) =
   match parse_sx line with
@@ -193,7 +205,24 @@ let run_line (line : string) =
        let g = gx gr in
        let (tk, spn) =
          (match ik with
-          | A "str" | A "slice" -> (toks inp, spn_plain)
+          | A "str" | A "slice" | A "array" | A "stream" | A "bstream" | A "mapspan" | A "withctx" | A "bytes" | A "io" ->
+            (toks inp, spn_plain)
+          | A "mapped" | A "mappedstream" | A "iter" ->
+            (match inp with
+             | L l ->
+               let trip = List.map (function L [t; s; e] -> (num t, num s, num e) | _ -> failwith "mapped token") l in
+               let arr = Array.of_list trip in
+               let n = Array.length arr in
+               let eoi = if n = 0 then 3 else (let (_, _, e) = arr.(n - 1) in e + 2) in
+               let spn (p1 : nat) (p2 : nat) : nat * nat =
+                 let i1 = int_of_nat p1 and i2 = int_of_nat p2 in
+                 if i1 < n then
+                   (let (_, s, _) = arr.(i1) in
+                    let e = if i2 = 0 then eoi else (let (_, _, e) = arr.(min (i2 - 1) (n - 1)) in e) in
+                    (nat_of_int s, nat_of_int e))
+                 else (nat_of_int eoi, nat_of_int eoi) in
+               (List.map (fun (t, _, _) -> n_of_int t) trip, spn)
+             | _ -> failwith "mapped input")
           | _ -> failwith "ikind") in
        let fuel = nat_of_int (3 * (sx_size gr + List.length tk) + 40) in
        if which = "sem" then
